@@ -98,25 +98,51 @@ func Counting(p *core.Prog, r *core.Report) {
 		keep := f.Params[len(f.Params)-1]
 		phi := counterOf(f, "validated")
 		voided := false
-		if phi != nil {
-			core.EachInstr(f, func(i ssa.Instruction) {
+		// the clearing may sit in a helper that receives the kept result and the counter (the conclusion of the
+		// function split off): followed through static calls that hand both on
+		var voidedIn func(fn *ssa.Function, keepV, cntV ssa.Value, d int) bool
+		voidedIn = func(fn *ssa.Function, keepV, cntV ssa.Value, d int) bool {
+			found := false
+			core.EachInstr(fn, func(i ssa.Instruction) {
 				c, ok := i.(*ssa.Call)
-				if !ok {
+				if !ok || found {
 					return
 				}
 				g := core.StaticCallee(c)
-				if g == nil || g.Name() != "cleared" || len(c.Call.Args) == 0 || c.Call.Args[0] != ssa.Value(keep) {
+				if g == nil || len(c.Call.Args) == 0 {
 					return
 				}
-				// after the loop, on the "exactly one" arm
-				for _, cd := range core.CondsAt(c.Block()) {
-					if bo, ok := cd.Value.(*ssa.BinOp); ok && bo.Op == token.EQL && cd.Sense {
-						if k, isK := core.ConstInt(bo.Y); isK && k == 1 && (bo.X == ssa.Value(phi) || dependsOn(bo.X, phi, 0)) {
-							voided = true
+				if g.Name() == "cleared" && c.Call.Args[0] == keepV {
+					// after the loop, on the "exactly one" arm
+					for _, cd := range core.CondsAt(c.Block()) {
+						if bo, ok := cd.Value.(*ssa.BinOp); ok && bo.Op == token.EQL && cd.Sense {
+							if k, isK := core.ConstInt(bo.Y); isK && k == 1 && (bo.X == cntV || dependsOn(bo.X, cntV, 0)) {
+								found = true
+							}
 						}
 					}
+					return
+				}
+				if d >= 2 || !p.InSubject(g) || len(g.Blocks) == 0 || len(g.Params) != len(c.Call.Args) {
+					return
+				}
+				kj, ci := -1, -1
+				for idx, a := range c.Call.Args {
+					if a == keepV {
+						kj = idx
+					}
+					if a == cntV {
+						ci = idx
+					}
+				}
+				if kj >= 0 && ci >= 0 && voidedIn(g, g.Params[kj], g.Params[ci], d+1) {
+					found = true
 				}
 			})
+			return found
+		}
+		if phi != nil {
+			voided = voidedIn(f, keep, phi, 0)
 		}
 		if voided {
 			r.OK(rule, "oneOf:kept-errors", p.Pos(f.Pos()), "the errors kept from failing alternatives are cleared on the arm where exactly one alternative holds")
